@@ -55,6 +55,34 @@ def rule_occupant(ck, rid="C13.R2"):
                bad="BaseEVSE.unplug must set _ev to None on every path", sink="unplug-store")
 
 
+def rule_occupant_writers(ck, rid="C13.R2"):
+    """the occupant of a station changes only through BaseEVSE.plugin (refusing when occupied) and BaseEVSE.unplug, and the EVSE-level
+    unplug is invoked only from the network's session-checked unplug: no other code path can evict or replace an occupant"""
+    from ..rules import who_writes, who_calls
+    repo = ck.repo
+    allowed_w = {"BaseEVSE.__init__", "BaseEVSE.plugin", "BaseEVSE.unplug", "BaseEVSE._from_dict_helper", "BaseEVSE._from_dict"}
+    n = 0
+    for f, kind, p, t in who_writes(repo, "_ev"):
+        if "/tests/" in f.module:
+            continue
+        n += 1
+        ck.require(f.qual in allowed_w, rid, f, t, ok=f"occupant written by {f.qual}",
+                   bad=f"{f.qual} writes the occupant of a station directly: the refusal / session check of plugin and unplug is bypassed", sink=f"ev-writer:{f.qual}")
+    ck.floor(rid, n, 3, "writers of BaseEVSE._ev")
+    allowed_c = {"ChargingNetwork.unplug", "StochasticNetwork.unplug"}     # the contrib network overrides unplug (its guards are C19.R4/R9)
+    m = 0
+    for f, c in who_calls(repo, "unplug"):
+        if f is None or "/tests/" in f.module or c.args or c.keywords:
+            continue                      # the network-level unplug takes (station_id, session_id); the EVSE-level one takes nothing
+        if isinstance(c.func, ast.Attribute) and isinstance(c.func.value, ast.Call) and call_name(c.func.value) == "super":
+            continue
+        m += 1
+        ck.require(f.qual in allowed_c, rid, f, c, ok="EVSE.unplug() called from the session-checked network unplug",
+                   bad=f"{f.qual} detaches an occupant by calling EVSE.unplug() itself: an EV can be removed without its own unplug event / session check "
+                       f"(e.g. evicted by a newcomer instead of the newcomer being refused)", sink=f"evse-unplug-caller:{f.qual}")
+    ck.floor(rid, m, 1, "call sites of the EVSE-level unplug()")
+
+
 def rule_set_pilot_table(ck, rid="C13.R1"):
     """decision table of BaseEVSE.set_pilot: on every accepting path the pilot is latched exactly once (also on a vacant station) and
     a connected EV is charged exactly once with (pilot, voltage, period); a rejecting path ends in the raise with no effect."""
@@ -414,6 +442,7 @@ def run(ck):
     ck.attempt(rule_validate_before_mutate)
     ck.attempt(rule_set_pilot_table)
     ck.attempt(rule_occupant)
+    ck.attempt(rule_occupant_writers)
     ck.attempt(rule_exhaustive)
     ck.attempt(rule_agreement)
     ck.attempt(rule_finite_normalisation)
